@@ -32,7 +32,9 @@ SeqToFun(ts, key, val) == [n \in {ts[k][key] : k \in 1..Len(ts)} |-> ts[MinOf({k
 StateOf(st, s) ==
   LET img == st.img
       dpart == [dpool |-> [cp |-> img.cp, e |-> img.pool], dsum |-> img.sum,
-                ustreams |-> SeqToFun(img.streams, "name", "data"), ptype |-> img.ptype]
+                ustreams |-> LET u == SeqToFun(img.streams, "name", "data") IN
+                             IF img.sig THEN [x \in DOMAIN u \cup {SIG} |-> IF x = SIG THEN "sig" ELSE u[x]] ELSE u,
+                ptype |-> img.ptype]
       cells == LET pres == SelectSeq(img.tables, LAMBDA x : x.present) IN SeqToFun(pres, "name", "cells")
   IN IF st.open
      THEN LET sc == SeqToFun(st.api.tables, "name", "cols") IN
@@ -62,7 +64,8 @@ Observed(st, s1) ==
        /\ st.lenok
        /\ \A k \in 1..Len(st.api.tables) :
              RowsS(s1, st.api.tables[k].name) = st.api.tables[k].rows
-       /\ SeqToFun(st.api.streams, "name", "data") = s1.ustreams
+       /\ SeqToFun(st.api.streams, "name", "data") = [x \in DOMAIN s1.ustreams \ {SIG} |-> s1.ustreams[x]]
+       /\ st.api.sig = (SIG \in DOMAIN s1.ustreams)
        /\ st.api.ptype = s1.ptype
        /\ {st.img.tables[k].name : k \in 1..Len(st.img.tables)} = DOMAIN s1.schemas
   /\ (~s1.dirty.fin => st.img.sumerrs = <<>>)       \* C10: saved summary stream is well-formed
